@@ -50,7 +50,8 @@ SPECIAL_TAG = ["@", "@@", "@1", "@a:b", "@a#b", "@<a>", "@|", "@\\", "@" + "t" *
 
 
 class Gen:
-    def __init__(self, rnd, dialect, size="medium", rare=False, ascii_only=False, special=0.0, deep=False):
+    def __init__(self, rnd, dialect, size="medium", rare=False, ascii_only=False, special=0.0, deep=False, default_dialect="en"):
+        self.default_dialect = default_dialect       # dialect of the matcher that will read the text: no header needed for it
         self.special = special
         self.deep = deep
         self.r = rnd
@@ -424,10 +425,10 @@ class Gen:
     def doc(self):
         r = self.r
         self.filler(0.2)
-        if self.d == "en" and r.random() < 0.03:
+        if self.d == self.default_dialect and r.random() < 0.03:
             self.stat("featureless")
             return {"comments": self.comments}
-        if self.d != "en" or r.random() < 0.3:
+        if (self.d != self.default_dialect and True) or r.random() < 0.3:
             hdr = self.ind() + "#" + r.choice(["", " ", "  ", "\t"]) + "language" + r.choice(["", " "]) + ":" + \
                 r.choice(["", " ", "  "]) + self.d + self.pad()
             ln = self.emit(hdr, "Language")
@@ -475,7 +476,7 @@ def dialects_language_re(line):
 
 
 class Rendered:
-    __slots__ = ("text", "lines", "kinds", "ast", "nl", "final_nl", "dialect", "stats", "seed")
+    __slots__ = ("text", "lines", "kinds", "ast", "nl", "final_nl", "dialect", "stats", "seed", "default_dialect")
 
 
 def render(rnd, dialect=None, size="medium", rare=False, ascii_only=False, nl=None, default_dialect="en", special=0.0, deep=False):
@@ -484,7 +485,7 @@ def render(rnd, dialect=None, size="medium", rare=False, ascii_only=False, nl=No
     names = list(dialects.master())
     if dialect is None:
         dialect = "en" if rnd.random() < 0.4 else rnd.choice(names)
-    g = Gen(rnd, dialect, size, rare, ascii_only, special, deep)
+    g = Gen(rnd, dialect, size, rare, ascii_only, special, deep, default_dialect)
     ast = g.doc()
     out = Rendered()
     out.nl = nl or rnd.choice(["\n", "\n", "\r\n"])
@@ -499,6 +500,7 @@ def render(rnd, dialect=None, size="medium", rare=False, ascii_only=False, nl=No
     out.kinds = g.kinds
     out.ast = ast
     out.dialect = dialect
+    out.default_dialect = default_dialect
     out.stats = g.stats
     return out
 
